@@ -142,10 +142,37 @@ func sessionEngines(t *tape.Tape, fill bool) *core.RunResult {
 	res.Tracef("wiring=%s noise=%d hash=%d depth=%d predecessor=%v game=%q", w, noise, hash, depth, predecessor, g.FEN())
 	steps := 0
 
+	// a detour on the engine's own game before the analysis: a move played and taken back (castling if there
+	// is one). The game state is the same as without it, so the analysis must be, too.
+	var detour *rules.Move
+	if !fill && t.Chance(1, 3) {
+		cur := g.Pos()
+		if legal := cur.LegalMoves(); len(legal) > 0 {
+			m := legal[t.Choose(len(legal))]
+			for _, x := range legal {
+				if cur.Describe(x).Castle && t.Chance(3, 4) {
+					m = x
+					res.Probe("detour-castling-and-take-back")
+				}
+			}
+			detour = &m
+			res.Probe("detour-move-and-take-back")
+		}
+	}
 	analyze := func(e *engSim, gm *rules.Game, d int) bool {
 		if err := setup(ctx, e.b.E, gm); err != nil {
 			res.Discarded = "engine refuses the game: " + err.Error()
 			return false
+		}
+		if detour != nil && gm == g && e.name != "solo" {
+			if err := e.b.E.Move(ctx, detour.UCI()); err != nil {
+				res.Discarded = "engine refuses a legal move: " + err.Error()
+				return false
+			}
+			if err := e.b.E.TakeBack(ctx); err != nil {
+				res.Violate("C18", "analysis-changed-game", steps, "%s: TakeBack right after Move(%s): %v", e.name, detour.UCI(), err)
+				return false
+			}
 		}
 		e.before = e.b.E.Position()
 		e.snap = sb.Snap(e.b.E.Board())
@@ -268,12 +295,16 @@ func sessionEngines(t *tape.Tape, fill bool) *core.RunResult {
 	var es []*engSim
 	for i := 0; i < n; i++ {
 		seed := int64(t.Choose(1<<16)) + 7
-		if noise > 0 || fill {
-			seed = seed0 // with noise on, the seed is part of the key: same seed, same stream (and which positions share a slot depends on it)
+		if noise > 0 || fill || hash > 0 {
+			// with noise on, the seed is part of the key: same seed, same stream. With a table in use the seed
+			// decides which positions share a slot, hence which entries survive, hence the node count: that is
+			// what a finite hash table is, not a dependence the property excludes ("no hash table carried
+			// over" is what is compared with the table on: the same seed, a Reset before every analysis)
+			seed = seed0
 		}
 		es = append(es, &engSim{name: fmt.Sprintf("engine%d(seed=%d)", i+1, seed), b: Build(ctx, k, w, opts, seed, 1)})
 	}
-	if noise == 0 && !fill {
+	if noise == 0 && !fill && hash == 0 {
 		res.Probe("hash-seeds-differ")
 	}
 	if predecessor {
